@@ -72,6 +72,11 @@ Theorem C08_stale_poll_event_dropped : forall st data bits n e, nth_error (polls
   p_check e <> data / TWO32 -> poll_event (data, bits) (n, st) = (n, emit EvUsleep st).
 Proof. exact stale_poll_event_dropped. Qed.
 
+(* a pending timer (ACTIVE slot) has a heap entry and only pending timers have one, in every reachable state *)
+Theorem C08_active_timer_on_heap : forall f beh h rnd i t, fx_sigdel f = true -> good_rand rnd ->
+  nth_error (timers (run_history_fx f beh h rnd)) i = Some t -> (t_exp t <> None <-> t_state t = Active).
+Proof. exact active_timer_on_heap. Qed.
+
 (* timers, liveness step: after the timer source's turn (expire_the_timers) no heap entry is left whose expiry lies before the
    clock - every due timer has been moved to the job list of its priority (C10 bounds its wait there; at-most-once above) *)
 Theorem C08_timer_due_is_queued : forall st j t e,
@@ -149,6 +154,7 @@ Print Assumptions C08_timer_del_logs.
 Print Assumptions C08_signal_del_logs.
 Print Assumptions C08_stale_timer_rejected.
 Print Assumptions C08_stale_poll_event_dropped.
+Print Assumptions C08_active_timer_on_heap.
 Print Assumptions C08_timer_due_is_queued.
 Print Assumptions C08_fd_event_queues.
 Print Assumptions C08_fd_after_callback.
